@@ -16,6 +16,7 @@ mod sched;
 mod selftest;
 mod simdd;
 mod simf;
+mod simf32;
 mod simp;
 mod simlog;
 mod simrng;
